@@ -3,8 +3,10 @@
 package raw
 
 import (
+	"bytes"
 	"io"
 	"sync"
+	"time"
 )
 
 // Go starts a real goroutine outside the controlled scheduler. Only for
@@ -43,6 +45,27 @@ func Drain(r io.Reader) *Drained {
 		}
 	}()
 	return d
+}
+
+// WaitFor blocks until the data read so far contains marker (or the reader ended).
+func (d *Drained) WaitFor(marker string) {
+	for i := 0; ; i++ {
+		d.mu.Lock()
+		ok := bytes.Contains(d.buf, []byte(marker))
+		d.mu.Unlock()
+		if ok {
+			return
+		}
+		select {
+		case <-d.done:
+			return
+		default:
+		}
+		if i > 20000 {
+			return
+		}
+		time.Sleep(100 * time.Microsecond)
+	}
 }
 
 func (d *Drained) Wait() []byte {
